@@ -15,11 +15,15 @@ pub fn sm9_random_u256(range: &U256) -> U256 {
     loop {
         let mut buf: [u8; 32] = [0; 32];
         rng.fill_bytes(&mut buf[..]);
+        #[cfg(gm_rs_verif)]
+        crate::verif_hooks::candidate(&mut buf);
         ret = u256_from_be_bytes(&buf);
         if u256_cmp(&ret, range) < 0 && ret >= [1, 0, 0, 0] {
             break;
         }
     }
+    #[cfg(gm_rs_verif)]
+    crate::verif_hooks::accepted(&ret);
     ret
 }
 
